@@ -6,30 +6,51 @@ Import ListNotations.
 Local Open Scope Z_scope.
 Ltac Zify.zify_post_hook ::= Z.div_mod_to_equations.
 
-(* a two-way successor list whose guards denote b and (not b) *)
+(* a two-way successor list whose guards denote b and (not b), after merge_successors: when both
+   name the same address they are merged under the disjunction of the guards *)
 Lemma enabled_two st a1 a2 t f (b : bool) :
   den (st_env st) t = Ok (mkc 1 (b2z b)) -> den (st_env st) f = Ok (mkc 1 (b2z (negb b))) ->
-  enabled_succs (st_env st) [(a1, Some t); (a2, Some f)] = Ok [if b then a1 else a2].
+  e_bits t = 1 -> e_bits f = 1 ->
+  enabled_succs (st_env st) (merge_successors [(a1, Some t); (a2, Some f)]) = Ok [if b then a1 else a2].
 Proof.
-  intros Ht Hf. cbn [enabled_succs succ_enabled fst snd]. rewrite Ht, Hf. cbn [bind cbits cval].
-  destruct b; reflexivity.
+  intros Ht Hf Bt Bf. unfold merge_successors. cbn [fold_left merge_into fst snd].
+  destruct (Z.eqb_spec a1 a2) as [->|N].
+  - rewrite mk_bin_ok by congruence. cbn [enabled_succs succ_enabled fst snd].
+    rewrite (den_bin _ Or _ _ 1 _ _ Ht Hf). cbn [sp_bin bind cbits cval]. destruct b; reflexivity.
+  - cbn [enabled_succs succ_enabled fst snd]. rewrite Ht, Hf. cbn [bind cbits cval].
+    destruct b; reflexivity.
 Qed.
 
 (* ------------------------------------------------------------------ C6.2.27 B.cond *)
 Lemma bcc_conds s st addr cond v : emb s st -> 0 <= cond < 14 ->
   exists t f, b_bcc addr cond [OLabel v] = Ok ([], [(U 64 v, Some t); (addr + 4, Some f)]) /\
+    e_bits t = 1 /\ e_bits f = 1 /\
     den (st_env st) t = Ok (mkc 1 (b2z (ConditionHolds s cond))) /\
     den (st_env st) f = Ok (mkc 1 (b2z (negb (ConditionHolds s cond)))).
 Proof.
   intros [_ _ Hn Hz Hc Hv _ _] Hcond. unfold key_n, key_z, key_c, key_v in *.
   assert (Hcases : cond = 0 \/ cond = 1 \/ cond = 2 \/ cond = 3 \/ cond = 4 \/ cond = 5 \/ cond = 6 \/ cond = 7 \/
                    cond = 8 \/ cond = 9 \/ cond = 10 \/ cond = 11 \/ cond = 12 \/ cond = 13) by lia.
-  unfold ConditionHolds.
-  repeat (destruct Hcases as [-> | Hcases]); try subst cond;
-    (unfold b_bcc, nth_op; cbn [nth_error res_of_option bind]; rewrite const_target_label;
-     eexists; eexists; split; [vm_compute; reflexivity|];
-     split; cbn [den skey_of sname sssa sbits s_n s_z s_c s_v]; rewrite ?Hn, ?Hz, ?Hc, ?Hv;
-     destruct (fN s), (fZ s), (fC s), (fV s); vm_compute; reflexivity).
+  unfold ConditionHolds, b_bcc, nth_op. cbn [nth_error res_of_option bind]. rewrite const_target_label. cbn [bind].
+  generalize (U 64 v) (addr + 4). intros dst nxt.
+  Ltac bcc_case Hn Hz Hc Hv :=
+    eexists; eexists; split; [vm_compute; reflexivity|];
+    split; [reflexivity|]; split; [reflexivity|];
+    split; cbn [den]; unfold skey_of; cbn [sname sssa sbits]; rewrite ?Hn, ?Hz, ?Hc, ?Hv;
+    match goal with s : a64state |- _ => destruct (fN s), (fZ s), (fC s), (fV s) end; vm_compute; reflexivity.
+  destruct Hcases as [-> | Hcases]; [bcc_case Hn Hz Hc Hv|].
+  destruct Hcases as [-> | Hcases]; [bcc_case Hn Hz Hc Hv|].
+  destruct Hcases as [-> | Hcases]; [bcc_case Hn Hz Hc Hv|].
+  destruct Hcases as [-> | Hcases]; [bcc_case Hn Hz Hc Hv|].
+  destruct Hcases as [-> | Hcases]; [bcc_case Hn Hz Hc Hv|].
+  destruct Hcases as [-> | Hcases]; [bcc_case Hn Hz Hc Hv|].
+  destruct Hcases as [-> | Hcases]; [bcc_case Hn Hz Hc Hv|].
+  destruct Hcases as [-> | Hcases]; [bcc_case Hn Hz Hc Hv|].
+  destruct Hcases as [-> | Hcases]; [bcc_case Hn Hz Hc Hv|].
+  destruct Hcases as [-> | Hcases]; [bcc_case Hn Hz Hc Hv|].
+  destruct Hcases as [-> | Hcases]; [bcc_case Hn Hz Hc Hv|].
+  destruct Hcases as [-> | Hcases]; [bcc_case Hn Hz Hc Hv|].
+  destruct Hcases as [-> | ->]; bcc_case Hn Hz Hc Hv.
 Qed.
 
 Theorem bcond_sim addr cond imm19 : 0 <= cond < 16 -> sim addr (IBCond cond imm19).
@@ -39,9 +60,9 @@ Proof.
   unfold lift in Hl. cbn [operands_of dispatch terminating] in Hl.
   assert (Hpcr : 0 <= apc s < 2 ^ 64) by (destruct Hw as (_ & _ & _ & H); exact H).
   destruct (Z_lt_ge_dec cond 14) as [Hlt | Hge].
-  - destruct (bcc_conds s st addr cond (u64 (addr + sext_imm 21 (imm19 * 4))) He ltac:(lia)) as (t & f & B & Dt & Df).
+  - destruct (bcc_conds s st addr cond (u64 (addr + sext_imm 21 (imm19 * 4))) He ltac:(lia)) as (t & f & B & Bt & Bf & Dt & Df).
     rewrite B in Hl. cbn [bind fst snd] in Hl. inversion Hl; subst ops succs; clear Hl.
-    pose proof (enabled_two st (U 64 (u64 (addr + sext_imm 21 (imm19 * 4)))) (addr + 4) t f _ Dt Df) as En.
+    pose proof (enabled_two st (U 64 (u64 (addr + sext_imm 21 (imm19 * 4)))) (addr + 4) t f _ Dt Df Bt Bf) as En.
     exists st. destruct (ConditionHolds s cond); inversion Hs; subst s'; clear Hs.
     + split; [|apply emb_setPC; assumption]. rewrite (run_lifted_empty _ _ _ _ En).
       rewrite U64_u64. unfold setPC. cbn [apc]. rewrite Hpc. reflexivity.
@@ -90,15 +111,16 @@ Proof.
   destruct nz; cbn [dispatch terminating negb] in Hl, Hs; rewrite Hb in Hl; cbn [bind fst snd] in Hl;
     inversion Hl; subst ops succs; clear Hl; exists st.
   - (* CBNZ: branch when the operand is non-zero *)
-    pose proof (enabled_two st (U 64 (u64 (addr + sext_imm 21 (imm19 * 4)))) (addr + 4) _ _ (negb (x =? 0)) Dne) as En.
-    rewrite negb_involutive in En. specialize (En Deq).
+    assert (Deq' : den (st_env st) (EBin Cmpeq e (expr_const 0 (dsize sf))) = Ok (mkc 1 (b2z (negb (negb (x =? 0))))))
+      by (rewrite negb_involutive; exact Deq).
+    pose proof (enabled_two st (U 64 (u64 (addr + sext_imm 21 (imm19 * 4)))) (addr + 4) _ _ (negb (x =? 0)) Dne Deq' eq_refl eq_refl) as En.
     destruct (x =? 0); cbn [Bool.eqb negb] in Hs, En; inversion Hs; subst s'; clear Hs.
     + split; [|apply emb_nextPC; assumption]. rewrite (run_lifted_empty _ _ _ _ En).
       rewrite apc_nextPC by lia. rewrite Hpc. reflexivity.
     + split; [|apply emb_setPC; assumption]. rewrite (run_lifted_empty _ _ _ _ En).
       rewrite U64_u64. unfold setPC. cbn [apc]. rewrite Hpc. reflexivity.
   - (* CBZ *)
-    pose proof (enabled_two st (U 64 (u64 (addr + sext_imm 21 (imm19 * 4)))) (addr + 4) _ _ (x =? 0) Deq Dne) as En.
+    pose proof (enabled_two st (U 64 (u64 (addr + sext_imm 21 (imm19 * 4)))) (addr + 4) _ _ (x =? 0) Deq Dne eq_refl eq_refl) as En.
     destruct (x =? 0); cbn [Bool.eqb negb] in Hs, En; inversion Hs; subst s'; clear Hs.
     + split; [|apply emb_setPC; assumption]. rewrite (run_lifted_empty _ _ _ _ En).
       rewrite U64_u64. unfold setPC. cbn [apc]. rewrite Hpc. reflexivity.
@@ -147,11 +169,11 @@ Proof.
     cbn [bind operand_storing_width operand_load operand_imm_u64]. rewrite reg_bits_zr, G. cbn [bind].
     destruct (Z.leb_spec (dsize b5) bit) as [Hle|_]; [lia|].
     rewrite (mk_bin_ok And) by (rewrite B; reflexivity). cbn [unwrap bind]. fold masked.
-    rewrite !mk_bin_ok by reflexivity. cbn [unwrap bind]. destruct biz; reflexivity. }
+    rewrite !mk_bin_ok by (unfold masked; cbn [e_bits is_cmp]; rewrite B; reflexivity). cbn [unwrap bind]. destruct biz; reflexivity. }
   destruct nz; cbn [dispatch terminating] in Hl; rewrite Hb in Hl; cbn [bind fst snd] in Hl;
     inversion Hl; subst ops succs; clear Hl; exists st.
   - (* TBNZ: branch when the bit is set *)
-    pose proof (enabled_two st (U 64 (u64 (addr + sext_imm 16 (imm14 * 4)))) (addr + 4) _ _ (Z.testbit x bit) Dne Deq) as En.
+    pose proof (enabled_two st (U 64 (u64 (addr + sext_imm 16 (imm14 * 4)))) (addr + 4) _ _ (Z.testbit x bit) Dne Deq eq_refl eq_refl) as En.
     destruct (Z.testbit x bit); cbn [Bool.eqb] in Hs, En; inversion Hs; subst s'; clear Hs.
     + split; [|apply emb_setPC; assumption]. rewrite (run_lifted_empty _ _ _ _ En).
       rewrite U64_u64. unfold setPC. cbn [apc]. rewrite Hpc. reflexivity.
@@ -160,7 +182,7 @@ Proof.
   - (* TBZ *)
     assert (Dne' : den (st_env st) (EBin Cmpneq masked (expr_const 0 (dsize b5))) = Ok (mkc 1 (b2z (negb (negb (Z.testbit x bit))))))
       by (rewrite negb_involutive; exact Dne).
-    pose proof (enabled_two st (U 64 (u64 (addr + sext_imm 16 (imm14 * 4)))) (addr + 4) _ _ (negb (Z.testbit x bit)) Deq Dne') as En.
+    pose proof (enabled_two st (U 64 (u64 (addr + sext_imm 16 (imm14 * 4)))) (addr + 4) _ _ (negb (Z.testbit x bit)) Deq Dne' eq_refl eq_refl) as En.
     destruct (Z.testbit x bit); cbn [Bool.eqb negb] in Hs, En; inversion Hs; subst s'; clear Hs.
     + split; [|apply emb_nextPC; assumption]. rewrite (run_lifted_empty _ _ _ _ En).
       rewrite apc_nextPC by lia. rewrite Hpc. reflexivity.
